@@ -38,3 +38,23 @@ package revision
 //@   requires r != nil && r.leaderElection != nil && r.metricCli != nil && r.httpClient != nil
 //@   modifies *
 //@   ensures [a-revision-only-from-a-complete-status-document] err == nil ==> !http_failed && http_status == 200 && !read_failed && !parse_failed
+
+// the shared fetch: sf_failed is a ghost copy of its error ("sf_failed := err != nil" at the return);
+// its closure reports an error of getRevisionFromLeader unless the error asks for the other schema
+//@ ghost sf_failed Bool
+//@ func (*revisionSyncer).singleFlightGetRevisionFromLeader() (rev, err)
+//@   props C18
+//@   nosafety
+//@   requires r != nil
+//@   modifies *
+//@   assume_ensures [ghost-assignment] sf_failed == (err != nil)
+
+// a sync that could not obtain the leader's revision fails, and only a successful one touches the
+// backend's committed revision
+//@ func (*revisionSyncer).SyncReadRevision() (err)
+//@   props C18
+//@   nosafety
+//@   requires r != nil && r.leaderElection != nil && r.metricCli != nil && r.backend != nil
+//@   requires [a-new-request] !sf_failed
+//@   modifies *
+//@   ensures [a-failed-fetch-fails-the-sync] sf_failed ==> err != nil
